@@ -915,8 +915,10 @@ class Facts:
             at = atoms()
 
             def want(ck, raw):
-                if raw.get("impl_trait") or "::_::" in ck:
-                    return False  # trait impls; pin-project's generated project()/project_replace() (modelled as transparent)
+                if "::_::" in ck:
+                    return False  # pin-project's generated project()/project_replace() (modelled as transparent)
+                if raw.get("impl_trait") and raw["impl_trait"].split("::")[-1] not in ("From", "TryFrom", "Into", "TryInto", "FromStr", "Default"):
+                    return False  # trait impls stay calls, except crate-local conversions (logic "pushed into a From impl")
                 n = norm(ck)
                 if n in at:
                     return False
